@@ -98,3 +98,29 @@ Print Assumptions C08_undo_reduces_to_undoDel.
 Theorem C08_undo_all_blocks_4_slots : un_failures 4 4 = [].
 Proof. exact un_g0_exhaustive_4. Qed.
 Print Assumptions C08_undo_all_blocks_4_slots.
+
+(** ... and for blocks WITH deletions followed by any additions, when the deletions are "regular" (no
+    inner node loses all its leaves: no two sibling leaves / no whole subtree or tree deleted together):
+    Proofs/ProofUndoDel.v.  Whole-subtree deletions: computation above + correspondence run; proof open. *)
+From Utreexo Require Import Proofs.RefTheory Proofs.StumpAdd Proofs.ProofUpdateDel Proofs.ProofUndoDel.
+
+Theorem C08_undo_regular_deletion_blocks :
+  forall (H : Type) (HO : ops H), ops_ok HO ->
+  (forall a b, NZ HO (op_hash2 HO a b)) ->
+  forall (s : slots H) (hs adds C : list H) (rem : list N),
+  (forall h, In (Some h) s -> NZ HO h) ->
+  N.of_nat (length s + length adds) <= 2 ^ 63 ->
+  NoDup (live s) -> NoDup hs ->
+  (forall (e : StumpAdd.entry H) (ce : ctree H), In e (forest HO s) -> snd e = Some ce ->
+     regular H HO hs ce /\ RefTheory.prune HO hs ce <> None) ->
+  NoDup (live (kill HO hs s ++ map Some adds)) ->
+  NoDup C -> (forall h, In h C -> In (Some h) s) ->
+  forall hC' tC' pC' bt bp,
+    exp_cached HO (mk_ctx HO (apply_block HO s hs adds)) (cached_after HO C hs (pick adds rem))
+      = Some (hC', tC', pC') ->
+    exp_prove HO (mk_ctx HO s) hs = Some (bt, bp) ->
+    proof_undo HO tC' pC' (N.of_nat (length adds)) (num_leaves (apply_block HO s hs adds)) bt hs hC'
+               (ud_to_destroy (spec_update_data HO s hs adds)) bt bp
+    = exp_cached HO (mk_ctx HO s) (cached_after_undo HO (cached_after HO C hs (pick adds rem)) adds).
+Proof. exact @proof_undo_regular_deletions. Qed.
+Print Assumptions C08_undo_regular_deletion_blocks.
